@@ -24,6 +24,9 @@ impl VerifGroup {
     pub fn add_set(&mut self, perms: Vec<SlotMap>) -> bool {
         self.0.add_set(perms.into_iter().collect())
     }
+    pub fn add(&mut self, p: SlotMap) -> bool {
+        self.0.add(p)
+    }
     pub fn generators(&self) -> Vec<SlotMap> {
         self.0.generators().into_iter().collect()
     }
